@@ -199,6 +199,14 @@ def apply_deviation(dev: dict, hello: bytes, answer: bytes | None, bodies: list[
         b[pos] ^= dev.get("mask", 1) or 1
         frames[1] = wire.enc_noise_outer(bytes(b))
         return frames + data, 1, 0, KEYERR, "handshake"
+    if k == "hs_status":
+        # the status byte in front of the responder's handshake message is neither 0 (accepted) nor a reject with its
+        # reason text: the rest of the frame is the genuine handshake message.  Judged by the universal parts only --
+        # but the session MUST fail: the byte lies outside the handshake hash, nothing else would catch it
+        b = bytearray(answer)
+        b[0] = dev["val"]
+        frames[1] = wire.enc_noise_outer(bytes(b))
+        return frames + data, 1, 0, {"*must-fail*"}, "handshake"
     if k == "hs_trunc":
         frames[1] = wire.enc_noise_outer(answer[: dev["len"] % len(answer)])
         return frames + data, 1, 0, {"*universal*"}, "handshake"
@@ -271,6 +279,13 @@ def run_case(case: dict) -> CaseResult:
         elif want and "*universal*" in want:
             if got:
                 res.violations.append(Violation(ID, "c04:prefix:delivery-after-broken-handshake", str(dev)))
+        elif want and "*must-fail*" in want:
+            rf = h.ready_future
+            ready_ok = rf.done() and not rf.cancelled() and rf.exception() is None
+            if got:
+                res.violations.append(Violation(ID, "c04:prefix:delivery-after-broken-handshake", str(dev)))
+            elif err is None or ready_ok or not tr.closed:
+                res.violations.append(Violation(ID, f"c04:not-failed:{dev['kind']}", f"{dev} seg={seg}: error={err!r} readiness-succeeded={ready_ok} closed={tr.closed}"))
         else:
             if len(got) != nprefix:
                 res.violations.append(Violation(ID, f"c04:prefix:lost-before-deviation:{dev['kind']}", f"{dev}: delivered {len(got)} of the {nprefix} genuine messages before the deviation"))
@@ -430,7 +445,7 @@ def run_api(case: dict) -> CaseResult:
         raise HarnessError(str(e)) from e
     r = env.results.get("main")
     outcome = "pending" if r is None else "ok" if r[0] == "ok" else type(r[1]).__name__
-    if want and "*universal*" in want:
+    if want and ("*universal*" in want or "*must-fail*" in want):
         from aioesphomeapi.core import APIConnectionError
 
         if r is None or r[0] == "ok" or not isinstance(r[1], APIConnectionError):
@@ -514,6 +529,8 @@ def enumerated(tier):
             yield {**tr, "dev": {"kind": "hs_flip", "pos": pos, "mask": masks[-1]}, "seg": "one" if pos % 2 else "frames"}
         for ln in range(0, 49, 4):
             yield {**tr, "dev": {"kind": "hs_trunc", "len": ln}, "seg": "one"}
+        for val in (1, 2, 3, 4, 8, 0x10, 0x20, 0x40, 0x7F, 0x80, 0xC3, 0xFE, 0xFF):
+            yield {**tr, "dev": {"kind": "hs_status", "val": val}, "seg": ("one", "frames", "bytes")[val % 3]}
         for nm, ex in (("dev", "other"), ("", "dev"), ("devx", "dev"), ("Dev", "dev")):
             for seg in ("one", "frames", "bytes"):
                 yield {**tr, "name": nm, "expected": ex, "dev": {"kind": "name"}, "seg": seg}
@@ -528,7 +545,7 @@ def enumerated(tier):
     for s in KEYSTR_FIXED:
         yield {"mode": "keystr", "s": s}
         yield {"mode": "api", "what": "keystr", "s": s}
-    for d in HS_DEVS + [{"kind": "hs_flip", "pos": p, "mask": 1} for p in (0, 5, 31, 32, 47)] + [{"kind": "hs_trunc", "len": n} for n in (0, 1, 20, 48)]:
+    for d in HS_DEVS + [{"kind": "hs_status", "val": v} for v in (2, 0x41, 0x80, 0xFF)] + [{"kind": "hs_flip", "pos": p, "mask": 1} for p in (0, 5, 31, 32, 47)] + [{"kind": "hs_trunc", "len": n} for n in (0, 1, 20, 48)]:
         for cuts in (None, [3], [4, 9]):
             yield {"mode": "api", "what": "dev", "dev": d, "cuts": cuts}
     for nm, ex in (("dev", "other"), ("", "dev"), ("devx", "dev")):
@@ -587,6 +604,8 @@ def _case(draw, tier):
         d = {"kind": "lenflip", "i": i, "which": draw(st.integers(0, 1)), "mask": draw(st.sampled_from([1, 2, 4, 8, 16, 32, 64, 128]))}
     elif k == 9:
         d = draw(st.sampled_from(HS_DEVS))
+    elif k == 10 and draw(st.integers(0, 3)) == 0:
+        d = {"kind": "hs_status", "val": draw(st.integers(1, 255))}
     elif k == 10:
         d = {"kind": "hs_flip", "pos": draw(st.integers(0, 47)), "mask": draw(st.sampled_from([1, 128, 255]))}
     elif k == 11:
